@@ -1,8 +1,8 @@
 (** C13 — Permutation-test callback: same statistic under the null, Phipson-Smyth p-values.
     Property theorems only; proofs are in Proofs/PermutationR.v, the model in Model/Permutation.v.
 
-    Naming: [_refuted] = the clause is FALSE of the code as it is (witness inside);
-    [_partial] = the part of a refuted clause that does hold. *)
+    Naming: [_refuted] = the clause is FALSE of the code as it is (witness inside): only the
+    'approximate' formula (finding F23, pinned by a unit test of the library). *)
 From Coq Require Import ZArith String List Bool Reals QArith.
 From Coq Require Import Permutation.
 From Coquelicot Require Import Coquelicot.
@@ -13,47 +13,26 @@ Local Close Scope R_scope.
 
 (* ------------------------------------------------------------------ parameters of the null *)
 
-(** JS, KL, EMD, EnergyDistance, MMD: for EVERY constructor call that succeeds,
-    [statistical_kwargs] (what the callback passes to the statistic on permuted data) is, as a
-    dictionary, exactly the keyword arguments [compare]'s own path passes — for MMD up to the
-    cached [expected_k_xx], which C13_mmd_compare_is_null shows to be the same number. *)
-Theorem C13_null_uses_detector_params : forall d user o, binned d = false -> NoDup (dkeys user) ->
-  construct d user = Ok o ->
-  exists ck, compare_kwargs o [] = Ok ck /\ dict_equiv (null_kwargs o) (strip_cache d ck).
+(** ALL NINE detectors, every constructor call that succeeds, followed by ANY sequence of
+    successful calls of the public setters ([num_bins] of the seven binned / probability
+    detectors, [kernel] and [chunk_size] of MMD): [statistical_kwargs] (what the callback passes
+    to the statistic on permuted data) is, as a dictionary, exactly the keyword arguments
+    [compare]'s own path passes to the same static statistic — for MMD up to the cached
+    [expected_k_xx], which C13_mmd_compare_is_null shows to be the same number.
+    (Before fixes 0e07408 / fd44d2a this was false: the four binned detectors always permuted with
+    num_bins = 10 and no setter reached the null; findings F21, F21b.) *)
+Theorem C13_null_uses_detector_params : forall d user o kvs o', NoDup (dkeys user) ->
+  construct d user = Ok o -> (forall kv, In kv kvs -> settable d (fst kv) = true) -> assign_all o kvs = Ok o' ->
+  exists ck, compare_kwargs o' [] = Ok ck /\ dict_equiv (null_kwargs o') (strip_cache d ck).
 Proof. exact null_uses_detector_params_lemma. Qed.
 Print Assumptions C13_null_uses_detector_params.
 
-(** FULL: the same statement for PSI, HellingerDistance, BhattacharyyaDistance,
-    HINormalizedComplement.  It is false (finding F21): the subclasses do not forward [num_bins]
-    to BaseDistanceBasedBins.__init__, whose own default 10 overwrites the entry.
-    Witness: num_bins=5 -> the null uses 10 bins, compare uses 5. *)
-Theorem C13_null_uses_detector_params_binned_refuted : forall d, binned d = true ->
-  exists user o ck, NoDup (dkeys user) /\ construct d user = Ok o /\ compare_kwargs o [] = Ok ck /\
-    dget "num_bins" (null_kwargs o) = Some (VInt 10) /\ dget "num_bins" ck = Some (VInt 5).
-Proof. exact null_uses_detector_params_binned_refuted_lemma. Qed.
-Print Assumptions C13_null_uses_detector_params_binned_refuted.
-
-(** ... and for ALL parameters: the binned detectors' null always has num_bins = 10, while
-    compare uses the constructor's argument; they agree iff that argument is 10. *)
-Theorem C13_binned_null_always_10_bins : forall d user o, binned d = true -> construct d user = Ok o ->
-  dget "num_bins" (null_kwargs o) = Some (VInt 10) /\
-  exists ck, compare_kwargs o [] = Ok ck /\ dget "num_bins" ck = Some (user_num_bins user).
-Proof. exact binned_null_num_bins_lemma. Qed.
-Print Assumptions C13_binned_null_always_10_bins.
-
-(** [detector.num_bins = 5] after construction (public setter) changes compare but not the null. *)
-Theorem C13_null_ignores_setattr_refuted :
-  exists o o' ck, construct JS [] = Ok o /\ assign_num_bins o (VInt 5) = Ok o' /\ compare_kwargs o' [] = Ok ck /\
-    dget "num_bins" (null_kwargs o') = Some (VInt 10) /\ dget "num_bins" ck = Some (VInt 5).
-Proof. exact null_ignores_setattr_refuted_lemma. Qed.
-Print Assumptions C13_null_ignores_setattr_refuted.
-
-(** likewise [detector.kernel = other_kernel] on MMD *)
-Theorem C13_null_ignores_setattr_mmd_refuted :
-  exists o o' ck, construct MMD [] = Ok o /\ assign_attr o "kernel" (VFun 7) = Ok o' /\ compare_kwargs o' [] = Ok ck /\
-    dget "kernel" (null_kwargs o') = Some (VFun 0) /\ dget "kernel" ck = Some (VFun 7).
-Proof. exact null_ignores_setattr_mmd_refuted_lemma. Qed.
-Print Assumptions C13_null_ignores_setattr_mmd_refuted.
+(** the invariant behind it, preserved by construction and by each setter *)
+Theorem C13_synced_invariant :
+  (forall d user o, NoDup (dkeys user) -> construct d user = Ok o -> synced o /\ o_det o = d) /\
+  (forall o k v o', synced o -> settable (o_det o) k = true -> assign_attr o k v = Ok o' -> synced o' /\ o_det o' = o_det o).
+Proof. split; [exact construct_synced | exact assign_synced]. Qed.
+Print Assumptions C13_synced_invariant.
 
 (** MMD: fit(X) then compare(Y) (cached E[k(x,x')]) equals the static call the callback makes on
     the pair (X, Y) — same operations in the same order, for every number system, kernel-sum and
@@ -102,6 +81,17 @@ Theorem C13_pmap_schedule_independent : forall (T St : Type) np_permutation (sch
 Proof. exact pmap_schedule_independent_lemma. Qed.
 Print Assumptions C13_pmap_schedule_independent.
 
+(** The premise above, discharged for an explicit model of multiprocessing.Pool's map
+    ([run_parallel]: the input cut in consecutive chunks of size cs, each chunk's results written
+    to its own slice of the result list when it completes): whatever the completion order —
+    any order, repeats allowed — once every chunk has completed the result is [map f xs]. *)
+Theorem C13_pool_any_schedule : forall (X R : Type) (f : X -> R) (cs : nat), 0 < cs ->
+  forall (xs : list X) (schedule : list nat),
+  (forall i, In i schedule -> i * cs < length xs) -> (forall j, j < length xs -> In (j / cs) schedule) ->
+  run_parallel f cs xs schedule = map (fun x => Some (f x)) xs.
+Proof. exact run_parallel_any_schedule_lemma. Qed.
+Print Assumptions C13_pool_any_schedule.
+
 (** number of null statistics actually computed: min(requested, (n+m)!) *)
 Theorem C13_null_count : forall (T St : Type) np_permutation (sched : Type) starmap,
   (forall jobs sc f xs, starmap jobs sc f xs = map (fun ab : list T * list T => f (fst ab) (snd ab)) xs) ->
@@ -124,26 +114,12 @@ Local Open Scope R_scope.
 Theorem C13_auto_is_exact : forall requested, (requested <= MAX_NUM_PERM)%Z -> resolve Auto requested = Exact.
 Proof. exact auto_is_exact_lemma. Qed.
 
-(** what [_compute_conservative] returns: (b+1)/(requested+1) *)
-Theorem C13_conservative_code : forall (b : nat) (requested : Z),
-  pv_conservative (A:=RealA) b requested = (INR b + 1) / (IZR requested + 1).
-Proof. exact conservative_formula_R. Qed.
-Print Assumptions C13_conservative_code.
-
-(** FULL: p = (b+1)/(m+1) with m the number of null statistics.  False when all (n+m)!
-    permutations are enumerated (finding F22): 3 pooled samples, 10 requested, b = 0 gives 1/11, not 1/7. *)
-Theorem C13_conservative_formula_refuted : exists (b len : nat) (requested max_num : Z),
-  Z.of_nat len = Z.min requested max_num /\ (b <= len)%nat /\
-  Qpair (p_value (A:=QA) Conservative requested None max_num b len) = (1, 11)%Z /\
-  Qpair (@div QA (ofZ (Z.of_nat b + 1)) (ofZ (Z.of_nat len + 1))) = (1, 7)%Z.
-Proof. exact conservative_formula_refuted_lemma. Qed.
-Print Assumptions C13_conservative_formula_refuted.
-
-Theorem C13_conservative_formula_partial : forall (b len : nat) (requested : Z) total max_num,
-  Z.of_nat len = requested ->
+(** conservative: (b+1)/(m+1) with m = the number of null statistics computed, for every
+    requested number and both branches (before fix 5423711 the requested number was used: F22) *)
+Theorem C13_conservative_formula : forall (b len : nat) (requested : Z) total max_num,
   p_value (A:=RealA) Conservative requested total max_num b len = (INR b + 1) / (INR len + 1).
-Proof. exact conservative_formula_partial_lemma. Qed.
-Print Assumptions C13_conservative_formula_partial.
+Proof. exact conservative_formula_lemma. Qed.
+Print Assumptions C13_conservative_formula.
 
 (** exact: (1/m_t) sum_{t=1}^{m_t} BinomCDF(b; m, t/m_t), BinomCDF written with the standard
     library's binomial coefficient [C] *)
@@ -181,17 +157,17 @@ Proof. exact approximate_formula_refuted_lemma. Qed.
 
 (* ------------------------------------------------------------------ p in (0, 1] *)
 
-(** for ALL b <= m: conservative (b <= len <= requested always holds), exact (m_t >= 2; at m_t = 1
+(** for ALL b <= m: conservative, exact (m_t >= 2; at m_t = 1
     the single grid point is p = 1 and the value is 0 for b < m, [exact_mt1_zero]), and the
     code's approximate (m_t >= 1), over R ... *)
 Theorem C13_p_in_unit : forall b m mt,  (b <= m)%nat ->
-  (forall requested, (Z.of_nat m <= requested)%Z -> 0 < pv_conservative (A:=RealA) b requested <= 1) /\
+  (forall requested total max_num, 0 < p_value (A:=RealA) Conservative requested total max_num b m <= 1) /\
   ((2 <= mt)%nat -> 0 < pv_exact (A:=RealA) b m mt <= 1) /\
   ((1 <= mt)%nat -> 0 < pv_approximate (A:=RealA) b m mt <= 1) /\
   ((1 <= m)%nat -> 0 <= pv_estimate (A:=RealA) b m <= 1).
 Proof.
   intros b m mt Hb. repeat split; intros.
-  1,2: apply (conservative_in_unit_R b m); assumption.
+  1,2: apply (conservative_in_unit_R b m (Z.of_nat m)); [assumption | Lia.lia].
   1,2: rewrite exact_formula_R by Lia.lia; apply exact_in_unit_R; assumption.
   1,2: rewrite approximate_code_R by assumption; apply code_approximate_in_unit; assumption.
   1,2: apply estimate_in_closed_unit_R; assumption.
@@ -200,12 +176,12 @@ Print Assumptions C13_p_in_unit.
 
 (** ... and on the rational terms the check evaluates *)
 Theorem C13_p_in_unit_Q : forall b m mt, (b <= m)%nat ->
-  (forall requested, (Z.of_nat m <= requested)%Z -> (0 < pv_conservative (A:=QA) b requested /\ pv_conservative (A:=QA) b requested <= 1)%Q) /\
+  (forall requested total max_num, (0 < p_value (A:=QA) Conservative requested total max_num b m /\ p_value (A:=QA) Conservative requested total max_num b m <= 1)%Q) /\
   ((2 <= mt)%nat -> (0 < pv_exact (A:=QA) b m mt /\ pv_exact (A:=QA) b m mt <= 1)%Q) /\
   ((1 <= mt)%nat -> (0 < pv_approximate (A:=QA) b m mt /\ pv_approximate (A:=QA) b m mt <= 1)%Q).
 Proof.
   intros b m mt Hb. split; [|split]; intros.
-  - apply (conservative_in_unit_Q b m); assumption.
+  - apply (conservative_in_unit_Q b m (Z.of_nat m)); [assumption | Lia.lia].
   - apply exact_in_unit_Q; assumption.
   - apply approximate_in_unit_Q; assumption.
 Qed.
@@ -236,6 +212,20 @@ Example C13_nonvacuous :
   (map Qpair null, count_ge (A:=QA) obs null, Qpair p) =
   ([(7, 1); (2, 1); (7, 1); (5, 1); (2, 1); (5, 1)]%Z, 2%nat, (48305, 139968)%Z).
 Proof. vm_compute. reflexivity. Qed.
+
+(** regression witnesses of the three fixed defects, on the model *)
+Example C13_fixed_witnesses :
+  (exists o ck, construct PSI [("num_bins", VInt 5)]%string = Ok o /\ compare_kwargs o [] = Ok ck /\
+     dget "num_bins"%string (null_kwargs o) = Some (VInt 5) /\ dget "num_bins"%string ck = Some (VInt 5)) /\
+  (exists o o' ck, construct MMD [] = Ok o /\ assign_attr o "kernel"%string (VFun 7) = Ok o' /\ compare_kwargs o' [] = Ok ck /\
+     dget "kernel"%string (null_kwargs o') = Some (VFun 7) /\ dget "kernel"%string ck = Some (VFun 7)) /\
+  Qpair (p_value (A:=QA) Conservative 10 None 6 0 6) = (1, 7)%Z.
+Proof. split; [|split]; [do 2 eexists | do 3 eexists |]; repeat split; vm_compute; reflexivity. Qed.
+
+Example C13_pool_nonvacuous :
+  run_parallel (fun x => x * x)%Z 2 [1; 2; 3; 4; 5]%Z [2; 0; 1; 0] = [Some 1; Some 4; Some 9; Some 16; Some 25]%Z /\
+  pool_chunksize 5 2 = 1.
+Proof. split; vm_compute; reflexivity. Qed.
 
 Example C13_params_nonvacuous :
   exists o ck, construct JS [("num_bins", VInt 17); ("base", VInt 2)]%string = Ok o /\ compare_kwargs o [] = Ok ck /\
